@@ -31,6 +31,10 @@ ACTIONS = (None, ('remove', 0), ('remove', 1), ('remove', 2), ('add', 0),
            ('add', 1), ('add', 2), ('nested',))
 
 
+class Boom(Exception):
+    """Stands for Quit / SwitchWorld raised from a callback."""
+
+
 class Rec(Ordered):
     def __init__(self, ctx, idx):
         self.ctx = ctx
@@ -54,6 +58,9 @@ class Rec(Ordered):
             ctx.driver.do_add(ctx, action[1])
         elif action[0] == 'nested':
             ctx.driver.do_dispatch(ctx, 'b', ('nested',), {})
+        elif action[0] == 'raise':
+            ctx.actions = (None, None, None)    # raise once
+            raise Boom()
 
     def __repr__(self):
         return f'h{self.idx}'
@@ -318,6 +325,67 @@ class DispatchDriver:
                 tuple(sorted(ctx.registered)))
 
 
+# -- (a2) an *enabled* dispatcher that still holds a backlog ------------------
+def run_backlog(case):
+    """Events are queued while disabled; the release is aborted by a raising
+    callback (or a callback dispatches during the release).  The dispatcher
+    is enabled from then on, whatever is left in its queue: dispatch must
+    deliver at once, exactly once, with exactly the arguments."""
+    actor, action, queued, after, shape, order = case
+    driver = DispatchDriver()
+    ctx = driver.initial()
+    driver.apply(ctx, ('config', (0, 0, 0), tuple(order)))
+    for i in range(3):
+        driver.do_add(ctx, i)
+    ctx.d.dispatch_enabled = False
+    for name in queued:
+        ctx.d.dispatch(name, 'queued')
+    acts = [None, None, None]
+    acts[actor] = (action,)
+    ctx.actions = tuple(acts)
+    release = dict(name='<release>', args=(), kwargs={}, at_call=set(),
+                   added=set(), removed=set(), got=[], depth=0)
+    ctx.frames.append(release)
+    aborted = False
+    try:
+        ctx.d.dispatch_enabled = True
+    except Boom:
+        aborted = True
+    finally:
+        ctx.frames.pop()
+    hits = {'release_aborted_by_raise': 1} if aborted else {}
+    if not ctx.d.dispatch_enabled:
+        raise Violation('enabled_after_enabling',
+                        f'{case}: dispatch_enabled is False after the '
+                        f'enabling assignment')
+    args, kwargs = SHAPES[shape]
+    try:
+        driver.do_dispatch(ctx, after, args, dict(kwargs))
+    except Violation as v:
+        v.features['backlog'] = True
+        v.features['aborted_release'] = aborted
+        raise
+    hits['dispatch_on_enabled_dispatcher_with_history'] = 1
+    return {'calls': 2, 'hits': hits, 'key': repr(case),
+            'nontrivial': aborted}
+
+
+def backlog_cases():
+    out = []
+    for actor in range(3):
+        for action in ('raise', 'nested'):
+            for n in (1, 2, 3):
+                for queued in itertools.product(('a', 'b'), repeat=n):
+                    if 'a' not in queued:
+                        continue    # scripted callbacks act on event a
+                    for after in ('a', 'b', 'c'):
+                        for shape in (0, 5):
+                            for order in sorted(orders()):
+                                out.append((actor, action, queued, after,
+                                            shape, order))
+    return out
+
+
 # -- (b) decorator programs ------------------------------------------------
 POSITIONAL = ((), ('a',), ('b',), ('a', 'b'))
 MAPPINGS = ((), (('a', 'x'),), (('c', 'y'),), (('a', 'x'), ('c', 'y')))
@@ -474,6 +542,10 @@ def run(tier, rep):
     orders()
     for name, (driver, kw) in drivers(tier).items():
         kernel.explore(driver, rep, part=name, params=driver.params(), **kw)
+    rep.require_hits(release_aborted_by_raise=1,
+                     dispatch_on_enabled_dispatcher_with_history=1)
+    kernel.enumerate_cases(run_backlog, backlog_cases(), rep,
+                           'enabled-with-backlog', chunk=200)
     n_max = 3 if tier == 'quick' else 4
     kernel.enumerate_cases(run_program, program_cases(n_max), rep,
                            'decorator-programs', chunk=500,
@@ -481,6 +553,13 @@ def run(tier, rep):
 
 
 def replay(rec):
+    if rec['part'] == 'enabled-with-backlog':
+        orders()
+        try:
+            run_backlog(kernel.totuple(rec['case']))
+        except Violation as v:
+            return v
+        return None
     if rec['part'] == 'decorator-programs':
         try:
             run_program(kernel.totuple(rec['case']))
